@@ -2040,8 +2040,12 @@ where
         if self.req.attr_requests()?.is_some() {
             wb.start_array(&TLVTag::Context(ReportDataRespTag::AttributeReports as u8))?;
 
+            // Where the reports of a message start. A report that finds no space
+            // at this position does not fit any message.
+            let reports_start = wb.get_tail();
+
             for item in expand_read(&metadata, self.req, &accessor, &mut filter)? {
-                let item = item?;
+                let mut item = item?;
 
                 *empty = false;
 
@@ -2059,10 +2063,29 @@ where
                             });
 
                             if let Some(array_attr) = array_attr {
-                                if self.send_array_items(array_attr, wb).await? {
+                                if self
+                                    .send_array_items(array_attr, reports_start, wb)
+                                    .await?
+                                {
                                     break;
                                 } else {
                                     return Ok(false);
+                                }
+                            } else if wb.get_tail() == reports_start {
+                                // The message is empty and the report still does not fit:
+                                // sending the empty chunk and retrying would never end.
+                                // Report the attribute as failed instead.
+                                let status = match &item {
+                                    Ok(attr) => attr.status(IMStatusCode::ResourceExhausted),
+                                    // Not even the status fits
+                                    Err(_) => Err(err)?,
+                                };
+
+                                error!("Attribute report does not fit in an empty message");
+
+                                match status {
+                                    Some(status) => item = Err(status),
+                                    None => break,
                                 }
                             } else {
                                 debug!("<<< No TX space, chunking >>>");
@@ -2103,6 +2126,12 @@ where
             wb.expand(2)?;
             wb.start_array(&TLVTag::Context(ReportDataRespTag::EventReports as _))?;
 
+            // Whether the message holds nothing before the event reports array, and where
+            // the event reports start. An event that finds no space at this position
+            // in such a message does not fit any message.
+            let mut only_events = self.req.attr_requests()?.is_none();
+            let mut events_start = wb.get_tail();
+
             // Validate concrete event paths against node metadata
             // and emit EventStatusIB for non-wildcard paths that don't match
             for event_req in event_reqs.iter() {
@@ -2134,6 +2163,9 @@ where
                                 {
                                     return Ok(false);
                                 }
+
+                                only_events = true;
+                                events_start = wb.get_tail();
 
                                 result = resp.to_tlv(&TLVTag::Anonymous, &mut *wb);
                             }
@@ -2178,6 +2210,14 @@ where
                     break;
                 }
 
+                if only_events && wb.get_tail() == events_start {
+                    // The message is empty and the event still does not fit:
+                    // sending the empty chunk and retrying would never end.
+                    error!("Event report does not fit in an empty message");
+
+                    return Err(ErrorCode::ResourceExhausted.into());
+                }
+
                 debug!("<<< No TX space, chunking >>>");
                 if !self
                     .send(ReportDataChunkState::ChunkingEvents, false, wb)
@@ -2185,6 +2225,9 @@ where
                 {
                     return Ok(false);
                 }
+
+                only_events = true;
+                events_start = wb.get_tail();
             }
 
             // Structural write: takes its byte from the structural reserve
@@ -2201,10 +2244,12 @@ where
     ///
     /// Arguments:
     /// - `attr` - the array attribute to send the items of
+    /// - `reports_start` - the position in `wb` where the reports of a message start
     /// - `wb` - the buffer to use while sending the items
     async fn send_array_items(
         &mut self,
         attr: &AttrDetails,
+        reports_start: usize,
         wb: &mut WriteBuf<'_>,
     ) -> Result<bool, Error> {
         let mut attr = attr.clone();
@@ -2240,6 +2285,19 @@ where
                     attr.list_index = Some(Nullable::some(new_list_index));
                 }
                 Err(err) if err.code() == ErrorCode::NoSpace => {
+                    if wb.get_tail() == reports_start {
+                        // The message is empty and the item still does not fit:
+                        // sending the empty chunk and retrying would never end.
+                        // End the array with an error status instead.
+                        error!("Array item report does not fit in an empty message");
+
+                        if let Some(status) = attr.status(IMStatusCode::ResourceExhausted) {
+                            AttrResp::Status(status).to_tlv(&TLVTag::Anonymous, &mut *wb)?;
+                        }
+
+                        break;
+                    }
+
                     debug!("<<< No TX space, chunking >>>");
                     if !self
                         .send(ReportDataChunkState::ChunkingAttributes, false, wb)
